@@ -133,7 +133,8 @@ def sizes(tier):
     return s
 
 def generate(rng, tier):
-    n = 1500 if tier == "quick" else 40000
+    # round 6: random stream thinned 40000 -> 20000 (thorough budget; 62% of the model CPU; the directed blocks are untouched)
+    n = 1500 if tier == "quick" else 20000
     sz = sizes(tier)
     small = [0, 1, 2, 3, 4]
     ops2 = ["add", "sub", "mul"]
@@ -262,7 +263,7 @@ def pow_cases(rng, tier):
              nat_pattern(rng, 3, "random") | 1, nat_pattern(rng, 4, "sparse"), nat_pattern(rng, 5, "random") << 3]
     for k in (2, 3, 7, 16, 33, 62):
         bases.append(1 << k)
-    nrand = 12 if tier == "quick" else 120
+    nrand = 12 if tier == "quick" else 60      # round 6: random bases 240 -> 120 (thorough budget); the directed bases are untouched
     for _ in range(nrand):
         bases.append(rng.getrandbits(rng.choice([5, 9, 17, 31, 33, 47, 63, 64])) | 1)
         bases.append((rng.getrandbits(rng.choice([7, 20, 40, 64, 100, 128, 150, 200])) | 1) << rng.choice([0, 1, 5, 64, 70]))
